@@ -48,6 +48,7 @@ LEVEL_TEXT = ("Theorems (Lean 4, all trees, all oracle rows): find_objects = asc
 LEVEL_NOTE = ("Trusted: Lean kernel, standard axioms, the harness. Python's re is an oracle parameter (rows), universally quantified in the theorems and computed with re "
               "directly in the runs. The tree model is shared with C01-C03; the forest invariant is a hypothesis here (proved for parse by C03).")
 LEVEL_NOTE += (" " + "regexes_as_modelled (Ccp.RxC04): the templates behind the flag readings of the oracle rows (re.sub(r'\\s+', <backslash backslash s+>) of build_space_tolerant_regex, re.sub(r'\\\\(\\s)', r'\\1', re.escape(..)) of escape_linespec, '^(?:%s)$' of _find_line_OBJ) are re-read from /repo's AST on every run and proved equal to the ones the TRUSTED flag reading was written for.")
+LEVEL_NOTE += (" Scan sets as revised: regexes_as_modelled ties the regex-engine calls with the pattern in canonical form (canonical verbose form without the flag, group names and redundant escapes removed, per-value specialisation of a pattern passed to a same-file helper or built from a name that ranges over a constant collection, always-true searches left out), flags, re.sub replacements and the separator arguments of str.split/join/replace/strip; the literal tests (\"lit\" in x, == against string literals and their subscripts, startswith) are informational definitions Gen.rx...Info, no theorem is about them.")
 ASSUMPTIONS = ["regular expressions compile; lines contain no line break (so '^(?:p)$' with search is fullmatch)",
                "no 64-bit hash collision between distinct (linenum, text) pairs (set de-duplication after F03)",
                "regex_flags=0",
